@@ -459,6 +459,7 @@ def run(prog: Program, ctx: Ctx) -> None:  # noqa: PLR0912,PLR0915
     ctl = regex_findings(r"(?:[^()]+|\([^()]*\))+") and regex_findings(r"(a+)+") and not regex_findings(r"(?:\w+,\s*)*\w+")
     ctx.ob("R5", "positive-control", bool(ctl), "positive control: known catastrophic patterns are flagged and a safe separator-delimited one is not", "")
     _totality_table(prog, ctx)
+    _annotation_table(prog, ctx)
 
 
 ALPHABET = [
@@ -540,6 +541,42 @@ def _totality_chunk(arg: tuple) -> tuple[int, list[tuple[str, str, str]]]:
                 seen.add(cls_key)
                 found.append((cls_key, f"parse_{style}({value!r}, {opts or 'default options'}, {pname}) {problem}", where(fn)))
     return n, found
+
+
+ANNOTATION_TEXTS = [
+    "int", "list[int]", "a.b | None", "a b", "{", "}", "{x}", "{0}", "{}", "await x", "await {x}", "await {}", "await {0}", "(yield {x})", "(yield)", "lambda: {x}",
+    "await {path}", "await {error!r:>{w}}", "x := {y}", "await {x", "f'{x}'", "await f'{x}'", "'{x}'", "await '{x}'", "[{x} async for x in y]", "*{x}", "%", "{{", "await {{}}",
+]
+
+
+def _annotation_table(prog: Program, ctx: Ctx) -> None:
+    """R7: the helper every parser sends an item's type text through, evaluated (not stubbed, unlike in R6) on texts that compile but cannot be converted,
+    with braces in them: the text of a docstring is data, never a format string; whatever it is, the helper returns (the expression or the text)."""
+    from sa.absint import Obj, Raised, StepLimit
+
+    ctx.rule("R7", "parse_docstring_annotation evaluated on annotation texts (convertible, not compilable, compilable but not convertible, with and without braces), "
+                   "for a docstring with a parent: it returns the expression or the text and never raises")
+    pda = prog.function("_griffe.docstrings.utils.parse_docstring_annotation")
+    it = Interp(prog, max_depth=60, max_steps=200_000)
+    M = "_griffe.models"
+    mod = it._construct(prog.cls(f"{M}.Module"), ["m"], {})
+    fn = it._construct(prog.cls(f"{M}.Function"), ["f"], {})
+    it.call(prog.lookup_method(mod.cls, "set_member")[0], mod, "f", fn)
+    ds = it._construct(prog.cls(f"{M}.Docstring"), ["Summary."], {"parent": fn, "lineno": 1, "endlineno": 1})
+    n = 0
+    for ann in ANNOTATION_TEXTS:
+        it.steps = 0
+        it.depth = 0
+        try:
+            out = it.call(pda, ann, ds)
+            ok, msg = (isinstance(out, str) or (isinstance(out, Obj) and out.cls is not None)), f"returns {out if isinstance(out, str) else getattr(getattr(out, 'cls', None), 'name', type(out).__name__)!r}"
+        except Raised as r:
+            ok, msg = False, f"raises {r.exc}: it escapes every parser that reads an item type"
+        except StepLimit:
+            ok, msg = False, "does not finish"
+        n += 1
+        ctx.ob("R7", f"annotation|{ann}", ok, f"parse_docstring_annotation({ann!r}, <docstring of m.f>) {msg}", where(pda))
+    ctx.expect_min("R7", n, len(ANNOTATION_TEXTS))
 
 
 def _totality_table(prog: Program, ctx: Ctx) -> None:
